@@ -38,6 +38,7 @@ pub mod c05;
 pub mod c06;
 pub mod c07;
 pub mod c08;
+pub mod c09;
 pub mod c10;
 pub mod c11;
 pub mod c12;
@@ -67,6 +68,7 @@ pub fn get(id: &str) -> Option<PropDef> {
         "C06" => Some(c06::def()),
         "C07" => Some(c07::def()),
         "C08" => Some(c08::def()),
+        "C09" => Some(c09::def()),
         "C10" => Some(c10::def()),
         "C11" => Some(c11::def()),
         "C12" => Some(c12::def()),
